@@ -108,4 +108,14 @@ theorem difference_annotation_eq_getLpm (a : Tree w L) {m : PMap w R} (hwa : Has
     (it : DItem w L R) (hit : it ∈ difference a m.root) : it.right = m.getLpm it.p := by
   rw [difference_annotation a m.root hwa ⟨_, h.wf⟩ it hit, annotation_eq_getLpm h]
 
+/-- the union of two whole maps annotates every one-sided item with `get_lpm` of its prefix in the
+other map -/
+theorem union_annotation_eq_getLpm {ma : PMap w L} {mb : PMap w R} (ha : ma.TreeWF) (hb : mb.TreeWF) :
+    (union ma.root mb.root).filterMap UItem.view =
+      unionS (fun p => mb.getLpm p) (fun p => ma.getLpm p) ma.root.slotEntries mb.root.slotEntries := by
+  rw [union_annotation ma.root mb.root ⟨_, ha.wf⟩ ⟨_, hb.wf⟩]
+  have h1 : (fun p => lpmK mb.root.slotEntries p) = (fun p => mb.getLpm p) := funext (annotation_eq_getLpm hb)
+  have h2 : (fun p => lpmK ma.root.slotEntries p) = (fun p => ma.getLpm p) := funext (annotation_eq_getLpm ha)
+  rw [h1, h2]
+
 end PT.C08
